@@ -232,8 +232,9 @@ def generate_c(contract, ov):
             obs.append(Obligation("%s/cover:%s" % (name0, n), [], z3.BoolVal(False), kind="cover", props=contract.properties,
                                   expect_sat=True, meta=dict(note="no path matches")))
         else:
-            st2, c = hits[0]
-            obs.append(Obligation("%s/cover:%s" % (name0, n), list(st2.pc), z3.BoolVal(True) if c is True else c, kind="cover",
+            alts = [z3.And(*(list(st2.pc) + ([] if c is True else [c]))) if (st2.pc or c is not True) else z3.BoolVal(True)
+                    for (st2, c) in hits]
+            obs.append(Obligation("%s/cover:%s" % (name0, n), [], z3.Or(*alts) if len(alts) > 1 else alts[0], kind="cover",
                                   props=contract.properties, expect_sat=True))
     line = decl.get("loc", {}).get("line") or (decl.get("loc", {}).get("expansionLoc") or {}).get("line")
     return cx, obs, dict(sha=sha, paths=len(outcomes), lines=(line, None))
@@ -289,9 +290,9 @@ def generate(contract, ov):
             obs.append(Obligation("%s/cover:%s" % (name0, n), [], z3.BoolVal(False), kind="cover",
                                   props=contract.properties, expect_sat=True, meta=dict(note="no path matches")))
         else:
-            st2, c = hits[0]
-            goal = z3.BoolVal(True) if c is True else c
-            obs.append(Obligation("%s/cover:%s" % (name0, n), list(st2.pc), goal, kind="cover",
+            alts = [z3.And(*(list(st2.pc) + ([] if c is True else [c]))) if (st2.pc or c is not True) else z3.BoolVal(True)
+                    for (st2, c) in hits]
+            obs.append(Obligation("%s/cover:%s" % (name0, n), [], z3.Or(*alts) if len(alts) > 1 else alts[0], kind="cover",
                                   props=contract.properties, expect_sat=True))
     meta = dict(sha=sha, paths=npaths, lines=(fn.lineno, fn.end_lineno))
     return cx, obs, meta
